@@ -105,3 +105,127 @@ def run_opt_case(shape, optimizer, opt_kwargs=None):
         return False, f"{tried} native programs of shape {shape}: optimised == unoptimised"
     finally:
         shutil.rmtree(tmp, ignore_errors=True)
+
+
+# ---------------------------------------------------------------------------------------------------------------------
+# native instance of the fusion lemma (fuse_blockwise_specs / fuse): concrete key functions, tagging block functions
+
+
+def _reify(v):
+    if isinstance(v, tuple) and v and v[0] in ("Read", "App"):
+        return v
+    if isinstance(v, list):
+        return ("list", [_reify(x) for x in v])
+    if hasattr(v, "__next__"):
+        return ("iter", [_reify(x) for x in v])
+    if isinstance(v, tuple):
+        return ("tuple", [_reify(x) for x in v])
+    return ("const", repr(v))
+
+
+def run_fuse_case(opargs, preds, gen=False, legacy=False, out_coords=(3,)):
+    """two instances: the blocks of a list/stream argument distinct, and coinciding (a key function may name the same
+    block twice)"""
+    last = (False, "")
+    for dup in (False, True):
+        last = _run_fuse_case(opargs, preds, gen, legacy, out_coords, dup)
+        if last[0]:
+            return last
+    return last
+
+
+def _run_fuse_case(opargs, preds, gen, legacy, out_coords, dup):
+    """opargs: [(source, kind, n)], preds: {source: [(source, kind, n)]} as in contracts/c02_fusion.py CASES.
+    Runs the real fuse_blockwise_specs (or fuse) + get_results_in_different_scope on concrete coordinates with block
+    functions that build the application term of what they receive; compares with the unfused composition."""
+    import cubed.primitive.blockwise as B
+    from cubed.primitive.blockwise import BlockwiseSpec, ChunkKey, FunctionArgs
+
+    def A(s):
+        return f"array-{s}"
+
+    def coords_of(label, src, j, c):
+        # the same source read at two argument positions gets the same block (as in f(b, b))
+        return tuple(x * 2 + (0 if dup else j) + (sum(map(ord, label + src)) % 5) for x in c)
+
+    def make_keyfn(label, out_name, argspecs):
+        def keys(c):
+            out = []
+            for i, (src, kind, n) in enumerate(argspecs):
+                out.append((kind, [(A(src), coords_of(label, src, j, c)) for j in range(n)]))
+            return out
+
+        def keyfn(out_key):
+            args = []
+            for kind, ks in keys(tuple(out_key.coords)):
+                objs = [ChunkKey(nm, cs) for nm, cs in ks]
+                args.append(objs[0] if kind == "one" else (objs if kind == "list" else iter(objs)))
+            return FunctionArgs(*args, output_name=out_name)
+
+        keyfn.keys = keys
+        return keyfn
+
+    def make_fn(label, n_out=1):
+        if n_out == 1:
+            def fn(*args):
+                return ("App", label, [_reify(a) for a in args])
+            return fn
+
+        def gfn(*args):
+            a = [_reify(x) for x in args]
+            for i in range(n_out):
+                yield ("App", f"{label}#{i}", a)
+        return gfn
+
+    outs = [A("o0"), A("o1")] if gen else [A("o")]
+    okf = make_keyfn("o", outs[0], opargs)
+    ofn = make_fn("F_o", len(outs))
+    proxy = object()
+    ospec = BlockwiseSpec(okf, ofn, tuple(n for _, _, n in opargs), tuple(1 for _ in outs), {A(s): proxy for s, _, _ in opargs}, {o: proxy for o in outs})
+    pinfo, pspecs = {}, []
+    for (s, _k, _n) in opargs:
+        if s in preds:
+            if A(s) not in pinfo:
+                kf = make_keyfn(s, A(s), preds[s])
+                fn = make_fn(f"F_{s}")
+                pinfo[A(s)] = (kf, f"F_{s}", BlockwiseSpec(kf, fn, tuple(n for _, _, n in preds[s]), (1,), {A(x): proxy for x, _, _ in preds[s]}, {A(s): proxy}))
+            pspecs.append(pinfo[A(s)][2])
+        else:
+            pspecs.append(BlockwiseSpec(lambda x: FunctionArgs(x, output_name=x.name), lambda x: x, (1,), (1,), {}, {}))
+    if legacy:
+        class _P:  # just enough of a PrimitiveOperation / pipeline for fuse()
+            pass
+        raise NotImplementedError
+    fused = B.fuse_blockwise_specs(ospec, *pspecs)
+    orig_get_chunk = B.get_chunk
+    B.get_chunk = lambda in_key, config: ("Read", in_key.name, tuple(in_key.coords))
+    try:
+        try:
+            res = B.get_results_in_different_scope(list(out_coords), config=fused)
+            got = list(res) if gen else [res]
+        except Exception as e:  # noqa: BLE001
+            return True, f"the fused task raised {type(e).__name__}: {str(e)[:200]}"
+    finally:
+        B.get_chunk = orig_get_chunk
+
+    def ref(kind_keys):
+        kind, ks = kind_keys
+
+        def one(nm, cs):
+            if nm not in pinfo:
+                return ("Read", nm, cs)
+            kf, fl, _ = pinfo[nm]
+            inner = []
+            for k2, ks2 in kf.keys(cs):
+                vals = [("Read", n2, c2) for n2, c2 in ks2]
+                inner.append(vals[0] if k2 == "one" else (k2, vals))
+            return ("App", fl, inner)
+
+        vals = [one(nm, cs) for nm, cs in ks]
+        return vals[0] if kind == "one" else (kind, vals)
+
+    args = [ref(kk) for kk in okf.keys(tuple(out_coords))]
+    want = [("App", f"F_o#{i}", args) for i in range(2)] if gen else [("App", "F_o", args)]
+    if got != want:
+        return True, f"fused task computes {got!r:.400} but the unfused stages compute {want!r:.400}"
+    return False, "fused task == composition of the unfused stages"
